@@ -36,6 +36,42 @@ CHECKS = {
         note='Positions are produced by the renderer or re-read from the source; bounds as in C03/C14.',
         technique='bounded exhaustive enumeration of rendered models and noisy documents with position oracles',
         ref='2/C04', engine='E5'),
+    'C06': dict(
+        text='Complete cross product of document shapes (feature background x lists of scenario variants covering 0..2 steps and every examples shape x lists of rules) '
+             'compiled via the AST route (dictionaries computed from the model) and the parser route; pickles compared one-to-one, in order, with a direct count oracle and the reference compiler (name, uri, language, astNodeIds).',
+        note='List lengths bounded (<=3/4 scenarios, <=2 rules); the reference compiler is written from the property statements and self-tested on the corpus pickles.',
+        technique='bounded exhaustive enumeration of AST shapes through the real compiler against a reference model',
+        ref='2/C06', engine='E5'),
+    'C07': dict(
+        text='Cross product feature background {absent,0,1,2 steps} x scenarios x up to two rules with backgrounds x own steps {0,1,2} x plain/outline x six argument kinds; '
+             'pickle step sources walked on the AST (direct oracle), arguments verbatim, reference compiler, and input-unchanged check.',
+        note='Multiplicities bounded as stated; both compile routes.',
+        technique='bounded exhaustive enumeration of AST shapes through the real compiler against a reference model',
+        ref='2/C07', engine='E5'),
+    'C08': dict(
+        text='Complete cross product of tag multiplicities (none, one, duplicated name, two on a line, two lines) at feature / rule / scenario / examples level with 1-2 rules, scenarios and examples blocks; '
+             'exact (astNodeId, name) lists from a direct oracle and the reference compiler, via AST and parser route (tag look-ahead paths).',
+        note='Tag menus and list lengths bounded as stated.',
+        technique='bounded exhaustive enumeration of AST shapes through the real compiler against a reference model',
+        ref='2/C08', engine='E5'),
+    'C09': dict(
+        text='All header names over an 18-symbol adversarial alphabet (regex metacharacters, backslash, $, <, >, blank) up to length 2/3 x all values up to length 2 x 7 templates, substituted into name, step text, cell, doc string content and media type through Compiler.compile; '
+             'two-column order/duplicate families; parser route for representable cells; oracle = sequential str.replace.',
+        note='Characters outside the alphabet are represented by their class.',
+        technique='exhaustive enumeration of strings over an adversarial alphabet through the real compiler against literal replacement',
+        ref='2/C09', engine='E6'),
+    'C10': dict(
+        text='All keyword-type sequences (6 keywords, 5 types) of total length <= 5/6 split in every way across feature background / rule background / scenario, plain and outline, via AST and parser route; '
+             'every distinct step keyword of all 80 dialects after each of five predecessors through the parser; oracle = fold from Unknown, vocabulary check.',
+        note='Sequence length bounded; at the longest length the But keyword is dropped (same type as And).',
+        technique='bounded exhaustive enumeration of keyword-type sequences through the real compiler with a fold oracle',
+        ref='2/C10', engine='E5'),
+    'C11': dict(
+        text='Document models (structure <= N lines, deviations) parsed and compiled with one fresh generator: AST ids must equal the model post-order numbering, pickle ids continue steps-first, ids dense 0..n-1, every reference resolves to the right node kind; '
+             'all histories of <= 3/4 documents from a 10-document pool through one stream and one parser/compiler pair: ids pairwise distinct and equal to fresh ids plus the running offset.',
+        note='History length and pool bounded; N and k as in C03.',
+        technique='bounded exhaustive enumeration of document models and document histories with an id-numbering model',
+        ref='2/C11', engine='E5'),
     'C12': dict(
         text='All row strings over the character classes the splitter distinguishes up to length 8 (quick) / 10 (thorough) into GherkinLine.table_cells against an explicit 3-state splitter, '
              'the same through the whole parser as data-table and examples rows, round trip of every escaped cell text up to length 4/5, and all 340 table shapes (<=4 rows, cell counts 0..3) as data and examples tables in first and non-first position.',
